@@ -129,8 +129,9 @@ def flush(local, sc, cfg, hev, wire):
             return
 
 
-def _parse_payload(hexstr, routed):
-    """physical buffer of the traffic harness -> [(uid, header_dest or None, leg, total_bytes)]"""
+def _parse_payload(hexstr, routed, fs=0):
+    """physical buffer of the traffic harness -> [(uid, header_dest or None, leg, total_bytes)];
+    fs = bytes of function-object state that follow the lambda id (scenario param fstate)"""
     b = bytes.fromhex(hexstr)
     i, out = 0, []
     while i < len(b):
@@ -141,12 +142,17 @@ def _parse_payload(hexstr, routed):
             hsize = int.from_bytes(b[i:i + 4], "little")
             i += 8
             tot_hdr = 8
-        if i + 30 > len(b):
+        if i + 30 + fs > len(b):
             raise ValueError("truncated message in physical buffer")
-        uid = int.from_bytes(b[i + 2:i + 10], "little")
-        leg = int.from_bytes(b[i + 18:i + 22], "little", signed=True)
-        nblob = int.from_bytes(b[i + 22:i + 30], "little")
-        tot = 30 + nblob
+        if fs:
+            salt = int.from_bytes(b[i + 2:i + 2 + fs], "little")
+        i0 = i + fs
+        uid = int.from_bytes(b[i0 + 2:i0 + 10], "little")
+        if fs and salt != (uid ^ 0x5a5a5a5a5a5a):
+            raise ValueError(f"function-object state of message {uid} is not what the sender packed")
+        leg = int.from_bytes(b[i0 + 18:i0 + 22], "little", signed=True)
+        nblob = int.from_bytes(b[i0 + 22:i0 + 30], "little")
+        tot = 30 + fs + nblob
         if routed and hd != -1 and hsize != tot:
             raise ValueError(f"header size {hsize} != message bytes {tot} (uid {uid})")
         out.append((uid, hd, leg, tot + tot_hdr))
@@ -241,7 +247,7 @@ def deliver(local, sc, cfg, hev, wire):
                 if d is None or int(d["bytes"]) != int(ev.f[1]) or int(d["dst"]) != int(ev.f[0]):
                     bad(f"flush hook {ev!r} does not match the last MPI send {d and {kk: d[kk] for kk in ('dst', 'bytes')}}")
                     return
-                msgs = _parse_payload(d.get("data", ""), routed)
+                msgs = _parse_payload(d.get("data", ""), routed, 8 if sc.params.get("fstate") else 0)
                 chan.setdefault((r, int(ev.f[0])), []).append(msgs)
                 lines.append(f"isend {r} {ev.f[0]} " + (",".join(str(m[0]) for m in msgs) or "-"))
                 origin.append(ev)
